@@ -9,10 +9,12 @@ import (
 )
 
 type limitCaseResult struct {
-	sc LimitScenario
-	tr *LimitTrace
-	fs []limitFinding
-	st limitStats
+	leaked   string
+	censused bool
+	sc       LimitScenario
+	tr       *LimitTrace
+	fs       []limitFinding
+	st       limitStats
 }
 
 func (r *Run) limitCase(t *testing.T, sc LimitScenario) limitCaseResult {
@@ -22,7 +24,19 @@ func (r *Run) limitCase(t *testing.T, sc LimitScenario) limitCaseResult {
 		out := r.runBubble(t, 60*time.Second, jsonString(sc), func(ctl *bubbleCtl) {
 			ctl.SetPhase("limit-scenario", "")
 			res.tr = runLimit(sc)
+			if r.wantCensus() && res.tr != nil && res.tr.Rejected == "" && res.tr.Closed {
+				res.leaked = bubbleCensus(ctl)
+				res.censused = true
+			}
 		})
+		if res.censused {
+			r.Count("goroutine_censuses", 1)
+			r.Count("census.limit.input-closed", 1)
+			if res.leaked != "" {
+				r.Violation("C19", "leak:limit", "goroutine(s) started by the limit discipline remain after its output closed: "+firstLines(res.leaked, 12),
+					map[string]any{"scenario": sc, "stacks": res.leaked})
+			}
+		}
 		if out.Deadlock != "" && res.tr != nil && res.tr.StuckMsg == "" {
 			r.Violation("C19", "leak:limit", "goroutines remained blocked after the limit scenario ended: "+out.Deadlock,
 				map[string]any{"scenario": sc, "stacks": out.Stacks})
